@@ -173,4 +173,17 @@ CHECKS = {
         "level_note": "Aliasing shows only if some later step reuses or overwrites the shared memory; the history generator forces buffer reuse with sizes from 1 B to 1 MiB and explicit scribbling.",
         "assumptions": ["deep rendering (gen.Render) of a decoded value captures everything a caller can observe"],
     },
+    "C15": {
+        "pkg": "c15", "variants": [PLAIN],
+        "rule": ("small-scope enumeration: struct shapes built with reflect.StructOf from JSON names over the alphabet {A a B b 1 _ e-acute E-acute < KELVIN}: every 1-name set and 2-name sets (every 7th quick, all thorough) of "
+                 "names of length <= 2, flat, embedded and doubly embedded; wide shapes with 7/8/9/15/16/17/20 names (numbered, shared-prefix, mixed-case), names of 63/64/65/130 bytes, case-colliding and duplicated "
+                 "names across embedding depths. Keys: every string of length <= 2 (3 thorough) over the alphabet plus every name, its upper/lower-cased form and its one-edit neighbours, each in raw, fully \\u-escaped "
+                 "(lower and upper hex) and partly escaped spelling, alone and as duplicates in both orders, through Unmarshal, Decoder and a 1-byte-read Decoder. Oracle: encoding/json decoding the same document into "
+                 "the same struct type (which int field received which marker; error iff error) and, for encoding, byte-equal Marshal output. All (shape, document, mode) triples are distinct by construction and "
+                 "non-trivial (each probes a match/near-match decision)."),
+        "technique": "small-scope exhaustive enumeration of struct shapes x object keys x spellings x decode modes, differential against encoding/json",
+        "level_text": "Exhaustive within the stated name/key bounds, hand-picked wide shapes beyond; exploration level.",
+        "level_note": "Oracle encoding/json go1.23.5 on an identical reflect.StructOf type. Names that encoding/json does not accept as tag names are outside the domain.",
+        "assumptions": ["reflect.StructOf types behave like compiled struct types for both libraries (they take the fallback cache path)"],
+    },
 }
